@@ -36,8 +36,9 @@ def resolveDependsOn (m : LMap) (dep : String) : Except Err String := do
   | none => throw .assertion                      -- `not_none(...)`
   | some i => pure (if dep ∈ m.labelsOf i then dep else i)
 
-/-- the four identifier values handed to the template -/
-def generateRevision (m : LMap) (a : GenArgs) : Except Err Rev := do
+/-- head resolution, duplicate-head check, version-path check, splice check, `depends_on`
+    resolution: the down revisions and the dependencies as they will be written -/
+def resolveArgs (m : LMap) (a : GenArgs) : Except Err (List Id × List String) := do
   if a.revid.toList.any (· ∈ illegalChars) then throw .revisionError  -- `verify_rev_id` (CommandError from RevisionError)
   let heads ← getRevisionsMany m a.heads
   if hasDup heads then throw .commandError                           -- "Duplicate head revisions specified"
@@ -53,12 +54,39 @@ def generateRevision (m : LMap) (a : GenArgs) : Except Err Rev := do
     if heads.any (fun h => match h with | some i => !(m.nextrev i).isEmpty | none => false) then
       throw .commandError                                            -- "is not a head revision"
   let deps ← a.deps.mapM (resolveDependsOn m)
-  pure { id := a.revid, down := heads.filterMap id, deps := deps, labels := a.labels }
+  pure (heads.filterMap id, deps)
+
+/-- the keys of `_revision_map`: revision ids and branch labels -/
+def keysOf (m : LMap) : List String := m.ids ++ m.labelKeys.map (·.1)
+
+/-- the loop over `util.to_tuple(branch_labels)` added by the fix of F14: each label must not be
+    a key of the map, the new revision id, or an earlier label of the same call -/
+def labelsFree (taken : List String) : List String → Bool
+  | [] => true
+  | l :: ls => !(l ∈ taken) && labelsFree (l :: taken) ls
+
+/-- the four identifier values handed to the template.  A taken branch label is refused here,
+    BEFORE anything is written (it used to be noticed only by `add_revision`, with the file
+    already on disk: F14). -/
+def generateRevision (m : LMap) (a : GenArgs) : Except Err Rev :=
+  match resolveArgs m a with
+  | .error e => .error e
+  | .ok (down, deps) =>
+    if labelsFree (a.revid :: keysOf m) a.labels then
+      .ok { id := a.revid, down := down, deps := deps, labels := a.labels }
+    else .error .commandError                                         -- "Branch name ... already used by revision ..."
 
 /-- `generate_revision` = write the file, load it (`Script._from_path`), `add_revision` -/
 def genCall (m : LMap) (a : GenArgs) : Except Err (Rev × LMap) := do
   let r ← generateRevision m a
   let m' ← addRevision m r
   pure (r, m')
+
+/-- the state after a call: the files on disk (the history, in load order) and the in-memory map.
+    A refused call writes nothing and does not touch the map. -/
+def stepCall (st : Hist × LMap) (a : GenArgs) : Hist × LMap :=
+  match genCall st.2 a with
+  | .ok (r, m') => (st.1 ++ [r], m')
+  | .error _ => st
 
 end Model.Gen
